@@ -1892,7 +1892,7 @@ func main() {
 	if run.Thorough() {
 		exhaustive()
 	}
-	n := run.Scale(1600, 16000)
+	n := run.Scale(1200, 14000)
 	if os.Getenv("C09_ONLY_EXHAUSTIVE") != "" { // manual testing aid
 		n = 0
 	}
